@@ -6,6 +6,8 @@ for _f in _FORMS:
     for _v in ("f", "d"):
         _CONFIGS["%s_%s" % (_f, _v)] = {"quick": 1000, "thorough": 100000}
         _CONFIGS["%s_%s_big" % (_f, _v)] = {"quick": 300, "thorough": 30000}
+for _v in ("f", "d"):
+    _CONFIGS["sparse_%s_huge" % _v] = {"quick": 250, "thorough": 12500}
 
 # floors: roughly half of what a normal quick run (13 000 inputs, seed 1) measures; thorough = 50 x quick floors (half of the 100 x larger run)
 _QF = {"_distinct_nontrivial": 2000, "cases.completed": 6000, "cmp.intervals": 35000, "pipeline.compared": 5000,
@@ -21,7 +23,12 @@ _QF = {"_distinct_nontrivial": 2000, "cases.completed": 6000, "cmp.intervals": 3
 for _f in _FORMS:
     for _r in _ROUTES:
         _QF["nt.%s.%s" % (_f, _r)] = 300          # inputs with a finite H_1+ interval, per (form x route/encoding)
-_TF = {k: 50 * v for k, v in _QF.items()}
+# huge sparse inputs (entries of the 128-bit field beyond 2^64 meeting real Z_p reduction work in the top dimension)
+_QF.update({"huge.entry_over64": 150, "huge.entry_over64.odd_p": 140, "huge.entry_over64.odd_p.top_dim_bar": 70,
+            "huge.entry_over64.odd_p.top_dim_finite_bar": 30, "huge.entry_le64_control.odd_p.top_dim_bar": 40,
+            "huge.placement.high": 150, "huge.placement.low": 40, "huge.placement.scattered": 35,
+            "gen.huge_sphere": 120, "gen.huge_fewvalued": 80, "huge.dim_max.1": 75, "huge.dim_max.2": 150})
+_TF = {k: (25 if k.startswith(("huge.", "gen.huge")) else 50) * v for k, v in _QF.items()}
 
 SPEC = {
     "property": "C11",
@@ -32,7 +39,12 @@ SPEC = {
             "(big configs) 12-40 points with a sparse threshold graph (grid clouds, sparse random graphs, clusters incl. one 10-12-clique on "
             "the highest labels, a 12-vertex flag projective plane with decorations, and 129-348 points with an 8-10-clique on the highest labels so "
             "that simplex indices of the bit-field encodings exceed 2^64) and (n, dim_max, modulus) steered to both sides of the "
-            "64-bit and 128-bit limits of the encoding dispatcher. The input is handed to the engine in one of the five forms "
+            "64-bit and 128-bit limits of the encoding dispatcher; (huge configs, sparse form) 32 769-231 072 vertices, all isolated except 25-40 "
+            "active ones placed on the highest labels (or, as controls, the lowest / scattered labels) that carry circle / 2-sphere samples "
+            "with distances rounded up to multiples of 1/8 or a random 5-valued matrix (many ties, so the Z_p reduction in dimension dim_max "
+            "really adds columns), dim_max 1-2, moduli {3,5,7,13,32749,65521} and 2 as control: encoded entries (index << coefficient bits) "
+            "exceed 2^64 while coefficients of summed pivots are rewritten; there the oracle runs on the active vertices only and the "
+            "n-m essential H_0 bars of the isolated vertices are counted on both sides instead of stored. The input is handed to the engine in one of the five forms "
             "(Full_distance_matrix, Compressed lower, Compressed upper, Sparse edge list, Euclidean point cloud; float and double; several "
             "constructors per form) and run through ripser_auto, ripser, and help2 with each of Bitfield-64 / Bitfield-128 / CNS-128. The "
             "intervals streamed through output_dim/output_pair (zero-length dropped) are compared as a multiset per dimension with the "
@@ -69,8 +81,9 @@ SPEC = {
                 "ripser_auto, ripser and each of the three simplex encodings, under ASan+UBSan; the intervals streamed by the callbacks are "
                 "compared exactly (multiset per dimension, zero-length dropped) with a brute-force clique complex + textbook Z_p column "
                 "reduction, and with GUDHI's own simplex-tree / persistent-cohomology pipeline. Held on what was observed, not a proof: "
-                "inputs have at most 348 points (at most 10 when the complex is dense), cliques of at most 12 vertices, so simplex "
-                "indices above about 2^100 (and CNS indices above 2^64) are never produced.",
+                "dense complexes have at most 10 points, sparse ones at most 348 points with cliques of at most 12 vertices, plus sparse "
+                "inputs with up to 231 072 vertices of which 25-40 are not isolated (dim_max <= 2); simplex indices above about 2^100 "
+                "(and CNS indices above 2^64) are never produced.",
         "note": "trusted: oracle/flag.h + oracle/zp_reduce.h + the recursive clique enumerator of the harness; values are exactly "
                 "representable so no tolerance is used; n>=2, dim_max<=n-2, prime modulus<65536; third opinion only for moduli<=13",
         "technique": "runtime monitoring: randomized inputs x input forms x routes/encodings, independent reference oracle + N-version "
